@@ -93,9 +93,7 @@ def make_deck(ch, dims, skew, by_rpp, arr_mode, ranges=None):
             else:
                 lits += [s_lo, -s_hi]
                 pairs.append(((n, lo), (n, hi)))
-        expr = lits[0]
-        for l in lits[1:]:
-            expr = ('*', expr, l)
+        expr = hier.group_pairs(lits, ch.choose('grouping', ['flat', 'pairs', 'complement']))
     base = base_vectors(pairs)
     # ranges
     rng = [ch.choose('range%d' % k, ranges or RANGES) for k in range(dims)]
